@@ -1,7 +1,7 @@
 (* C10 -- the overlay shows the overlayfs union of its layers and never modifies lowers.
    Only statements, closed by [exact]; proofs live in Proofs/Overlay*.v. *)
 From Coq Require Import List String NArith Bool.
-From FB Require Import Model.Overlay Proofs.OverlayInv Proofs.OverlayScan Proofs.OverlayRestart Proofs.OverlayReadOnly Proofs.OverlayCoh Proofs.OverlayCohView Proofs.OverlayCohOps Proofs.OverlayCohSteps Proofs.OverlayRefineTeq Proofs.OverlayRefineMerge Proofs.OverlayRefineRun Proofs.OverlayRefine Proofs.OverlayRefineWh Proofs.OverlayRefineCu Proofs.OverlayRefineCuFile.
+From FB Require Import Model.Overlay Proofs.OverlayInv Proofs.OverlayScan Proofs.OverlayRestart Proofs.OverlayReadOnly Proofs.OverlayCoh Proofs.OverlayCohView Proofs.OverlayCohOps Proofs.OverlayCohSteps Proofs.OverlayRefineTeq Proofs.OverlayRefineMerge Proofs.OverlayRefineRun Proofs.OverlayRefine Proofs.OverlayRefineWh Proofs.OverlayRefineCu Proofs.OverlayRefineCuFile Proofs.OverlayRefineLink Proofs.OverlayRefineAll.
 Import ListNotations.
 Local Open Scope string_scope.
 Local Open Scope N_scope.
@@ -237,6 +237,42 @@ Proof.
   repeat (first [apply Forall_cons | apply Forall_nil | split | apply wf_dir | apply wf_file | apply wf_lnk | apply wf_wh
                 | apply NoDup_cons | apply NoDup_nil | (cbn; intuition discriminate) | reflexivity ]).
 Qed.
+(* (c) for LINK without copy-up (Proofs/OverlayRefineLink.v): the source is a regular file or symlink of the upper layer, the new
+   parent a directory of the upper layer, the new name has no candidate in any layer ([direct_link]); the new name shows the same
+   file, identity included.  Same statement as C10_op_refines_direct. *)
+Theorem C10_op_refines_link : forall s o v, Coherent s -> direct_link s o = true -> view (load_all s) = Some v ->
+  let spec := fs_apply o (mkFs v (next_ino s)) in
+  res_same (fst (step o s)) (fst spec) /\
+  oteq (view (load_all (run_op o s))) (Some (f_tree (snd spec))) /\
+  lowers (run_op o s) = lowers s.
+Proof. exact op_refines_link. Qed.
+(* All fragments proved on [teq] as one statement: [refinable s o = direct || direct_wh || direct_cu || direct_link], and in the
+   form of C10_op_refines_full after any history over [coh_op]: the full refinement statement holds for every operation that
+   satisfies [refinable] in the state reached (C10_op_refines_copyup_file adds the lower-file operations, on [ser]). *)
+Theorem C10_op_refines_fragments : forall s o v, Coherent s -> refinable s o = true -> view (load_all s) = Some v ->
+  let spec := fs_apply o (mkFs v (next_ino s)) in
+  res_same (fst (step o s)) (fst spec) /\
+  oteq (view (load_all (run_op o s))) (Some (f_tree (snd spec))) /\
+  lowers (run_op o s) = lowers s.
+Proof. exact op_refines_fragments. Qed.
+Theorem C10_op_refines_fragments_history : forall u ls nx ops o, Forall layer_ok (u :: ls) -> coh_history ops = true ->
+  refinable (run_dumps ops (load_all (fresh (Some u) ls nx))) o = true -> op_refines (Some u) ls nx ops o.
+Proof. exact op_refines_fragments_history. Qed.
+Example C10_op_refines_link_nonvacuous :
+  let u := Dir 493 [] [("d", Dir 493 [] [("f", File 5 420 [104] [("user.a", [1])]); ("e", Dir 448 [] [])]); ("g", Lnk [97])] in
+  let l := Dir 493 [] [("d", Dir 448 [] [("o", File 2 420 [111] [])]); ("z", Dir 493 [] [])] in
+  let s := load_all (fresh (Some u) [l] 1000) in
+  Coherent s /\
+  forallb (direct_link s) [OLink ["d"; "f"] ["d"; "e"; "h"]; OLink ["g"] ["k"]; OLink ["d"; "f"] ["n"]] = true /\
+  forallb (fun o => negb (direct_link s o)) [OLink ["d"; "o"] ["n"]; OLink ["d"; "f"] ["z"; "n"]; OLink ["d"; "f"] ["d"; "o"]; OLink ["d"] ["n"]] = true /\
+  forallb (refinable s) [OLink ["d"; "f"] ["n"]; OMkdir ["z"; "n"] 493; OUnlink ["d"; "o"]; OChmod ["d"; "f"] 384] = true /\
+  ser_opt (view (load_all (run_op (OLink ["d"; "f"] ["n"]) s))) = "d1ed(d=d1ed(e=d1c0(),f=f1a4[user.a=01,]:68,o=f1a4:6f,),g=l:61,n=f1a4[user.a=01,]:68,z=d1ed(),)".
+Proof.
+  cbv zeta. split; [|vm_compute; repeat split; reflexivity].
+  apply load_all_coherent. apply fresh_coherent.
+  repeat (first [apply Forall_cons | apply Forall_nil | split | apply wf_dir | apply wf_file | apply wf_lnk | apply wf_wh
+                | apply NoDup_cons | apply NoDup_nil | (cbn; intuition discriminate) | reflexivity ]).
+Qed.
 (* two ingredients, of independent use: the ordinary file system cannot tell [teq] trees apart (same answer, [teq] results) ... *)
 Theorem C10_ordinary_fs_respects_teq : forall o a b n, teq a b ->
   res_same (fst (fs_apply o (mkFs a n))) (fst (fs_apply o (mkFs b n))) /\
@@ -365,6 +401,9 @@ Print Assumptions C10_copy_up_dir_neutral.
 Print Assumptions C10_op_refines_copyup.
 Print Assumptions C10_op_refines_copyup_history.
 Print Assumptions C10_op_refines_copyup_file.
+Print Assumptions C10_op_refines_link.
+Print Assumptions C10_op_refines_fragments.
+Print Assumptions C10_op_refines_fragments_history.
 Print Assumptions C10_ordinary_fs_respects_teq.
 Print Assumptions C10_merge_update.
 Print Assumptions C10_merge_file_change.
